@@ -297,3 +297,28 @@ PROPS['C15'] = dict(
     assumptions=['evaluation is deterministic (C06), so an aliased call can be compared byte-for-byte with the unaliased one'],
     jobs=_c15,
 )
+
+# ------------------------------------------------------------------------------------------------ C06
+def _c06(tier, seed):
+    jobs = []
+    for be in BE:
+        jobs += J('c06.cpp', 'optim', be, n=5, args=['part=sched'] + (['threads=2'] if tier == 'quick' else ['threads=2', 'tiny_n=2']), ldflags='-ldl', deadline=(100 if tier == 'quick' else 1500))
+    jobs += J('c06.cpp', 'optim', 'spqlios-fma', n=8, args=['part=hist'], ldflags='-ldl')
+    if tier == 'thorough':
+        for be in ['spqlios-fma', 'fftw', 'nayuki-portable']:
+            jobs += J('c06.cpp', 'optim', be, n=5, args=['part=sched', 'threads=3', 'bound=2', 'tiny_n=1'], ldflags='-ldl', deadline=2400, timeout=3000)
+        jobs += J('c06.cpp', 'debug', 'fftw', n=8, args=['part=hist', 'depth=2'], ldflags='-ldl', deadline=2400, timeout=3000)
+    return jobs
+PROPS['C06'] = dict(
+    level='model_checking',
+    technique='stateless model checking of the real library under a controlled scheduler: exhaustive enumeration of all schedules with <= 2 preemptions over interposed synchronisation points; exhaustive operation histories up to depth 2-3',
+    rule='schedules: all interleavings with at most B preemptions (B=0,1,2 completed in order) of T real threads running scenario bodies on the real library; scheduling points = FFT kernel calls (pre/post), FFTW planner calls, '
+         'pthread_mutex_lock/unlock (blocking modelled), decomposition and Karatsuba entry, thread exit (thread_local destructors). oracles: every thread output byte-identical to its sequential reference, no deadlock, '
+         'no two threads at FFTW planner calls without a common lock. histories: every sequence of <= depth operations over a 14-operation alphabet on a fresh thread, then a probe (3 gates): bytes == reference. '
+         'non-trivial = schedule with at least one preemption / non-empty history',
+    bounds={'quick': '2 threads, <= 2 preemptions, 5 scenarios (FFT products, external products with shared key, gates with shared cloud key (n=1), gate vs key generation, Karatsuba products) x 5 back-ends; histories depth 2 (211 sequences)',
+            'thorough': '+ 3 threads (3 back-ends), tiny key n=2, histories depth 3'},
+    assumptions=['preemption happens only at the interposed points (the code has no atomics; no memory-ordering effects below that granularity are modelled)',
+                 'data races invisible to the scheduler are the business of the free-running TSan pass (supporting evidence, blind to the assembly kernels)'],
+    jobs=_c06, max_report=6, min_outcomes=1,
+)
